@@ -200,17 +200,10 @@ def generate(repo):
     else:
         raise ExtractError(f'VMF.parse: unrecognised index removals {rc} {rt}')
 
-    # ---- search must fold the query and the keys
-    se = _norm(_func(vmf, 'search'))
-    for frag in ('name=name.casefold()', "name[-1]=='*'", 'ent_name.casefold().startswith(name)',
-                 'ent_name.casefold()==name', 'yieldfromself.by_class[name]'):
-        if frag not in se:
-            raise ExtractError(f'VMF.search: fragment {frag!r} not found')
-
     # ---- _remove_copyset / CopySet
     top = {n.name: n for n in tree.body if isinstance(n, (ast.FunctionDef, ast.ClassDef))}
     rcs = _norm(top.get('_remove_copyset') or ast.parse('0'))
-    if 'copyset.discard(ent)' not in rcs or 'delmapping[key]' not in rcs:
+    if 'copyset.discard(ent)' not in rcs:
         raise ExtractError('_remove_copyset: unrecognised')
     cs = _norm(top.get('CopySet') or ast.parse('0'))
     if 'frozenset(self)' not in cs or 'yieldfrom(self-cur_items)' not in cs:
